@@ -15,7 +15,7 @@ def run(ctx):
                         "tag strings not spelled out in docs/specifications are frozen in KeyDerivation.tla as the deployed constants"]
     cfg = "SPECIFICATION Spec\n" + "".join("INVARIANT %s\n" % i for i in (
         "C17_Closed", "C17_Acyclic", "C17_TagsDistinct", "C17_Lengths", "C17_Lattice", "C17_NoEscalation"))
-    table, r = ctx.gen("caps/KeyDerivation", cfg, outname="kd_table.ndjson", env={"_JAVA_OPTIONS": "-XX:TieredStopAtLevel=1"})
+    table, r = ctx.gen("caps/KeyDerivationGen", cfg, outname="kd_table.ndjson", env={"_JAVA_OPTIONS": "-XX:TieredStopAtLevel=1"})
     ctx.exhaustive = True
     ctx.constants["derivations"] = sorted(table[0]["table"].keys())
     unit, e2e = (60, 6) if ctx.quick else (3000, 150)
